@@ -61,3 +61,45 @@ package crosscompile
 //@ effects io/ioutil:
 //@ at_call exec.Command requires pinned-tar-invocation: name == "tar" && len(arg) == 4 && arg[0] == "-xf" && arg[1] == tarXzFile && arg[2] == "-C" && arg[3] == dest
 //@ modifies everything
+
+// Download-then-extract: the archive is unpacked into a scratch directory next
+// to the destination and PUBLISHED by one rename, so a reader never sees a
+// half-extracted tree and an interrupted run leaves the destination absent
+// (the clause "concurrent requests leave one complete copy" rests on this and
+// on the lock file taken by the callers, which is not decided here). Whatever
+// format branch is taken, extraction goes into the scratch directory, only the
+// scratch directory is renamed, and only onto the destination.
+
+//@ func downloadAndExtractArchive
+//@ params url destDir description
+//@ locals tempDir
+//@ props C20
+//@ effects os: RemoveAll, MkdirAll, Rename
+//@ effects os/exec:
+//@ effects syscall:
+//@ at_call extractTarGz requires into-scratch: dest == tempDir
+//@ at_call extractTarXz requires into-scratch: dest == tempDir
+//@ at_call extractZip requires into-scratch: dest == tempDir
+//@ at_call os.Rename requires publishes-scratch-onto-destination: oldpath == tempDir && newpath == destDir
+//@ at_call os.RemoveAll requires removes-scratch-only: path == tempDir
+//@ at_call os.MkdirAll requires creates-scratch-only: path == tempDir
+//@ modifies everything
+
+// A library archive is extracted into a scratch directory and its source
+// directory is published onto the destination by one rename; nothing else is
+// renamed and nothing but the scratch directory is removed (the lock file
+// protocol of acquireLock/releaseLock across processes is not decided).
+
+//@ func checkDownloadAndExtractLib
+//@ params url dstDir internalArchiveSrcDir
+//@ locals lockPath lockFile tempExtractDir srcDir
+//@ props C20
+//@ effects os: Rename, RemoveAll, MkdirAll, OpenFile, File.Close
+//@ effects os/exec:
+//@ effects syscall: Flock
+//@ at_call syscall.Flock requires exclusive-lock: how == 2
+//@ at_call os.OpenFile requires opens-the-lock-file-only: name == lockPath
+//@ at_call downloadAndExtractArchive requires into-scratch: destDir == tempExtractDir
+//@ at_call os.Rename requires publishes-onto-destination: newpath == dstDir
+//@ at_call os.RemoveAll requires removes-scratch-only: path == tempExtractDir
+//@ modifies everything
